@@ -362,3 +362,12 @@ func verifC05(n Name) (base []byte, parts [][]byte, b2 []byte) {
 //@     invariant ref(r.result.Values) == old(ref(r.result.Values)) || fresh(r.result.Values)
 //@     invariant forall i int :: 0 <= i < len(r.result.Values) ==> valueOK(r.result.Values[i])
 //@     decreases len(line)
+
+// ---------------------------------------------------------------------------
+// Unit metadata (C04)
+
+// Metadata is looked up under the normalised unit, whichever spelling is asked for.
+//@ func (m UnitMetadataMap) Get(unit, key string) (u *UnitMetadata)
+//@   props C04
+//@   ensures has(m, mkstruct(UnitMetadataKey, benchunit.Tidy_1(1.0, unit), key)) ==> u == m[mkstruct(UnitMetadataKey, benchunit.Tidy_1(1.0, unit), key)]
+//@   ensures !has(m, mkstruct(UnitMetadataKey, benchunit.Tidy_1(1.0, unit), key)) ==> u == nil
